@@ -2,8 +2,8 @@ package interp
 
 import (
 	"fmt"
-	"runtime"
 	"go/types"
+	"runtime"
 	"sync"
 	"sync/atomic"
 	"time"
@@ -43,11 +43,11 @@ type UnitResult struct {
 	Truncated bool
 	Wall      time.Duration
 
-	mu      sync.Mutex
-	stop    int32
-	pending int32
+	mu       sync.Mutex
+	stop     int32
+	pending  int32
 	nsamples int32
-	paths   int64
+	paths    int64
 }
 
 type Options struct {
@@ -309,4 +309,27 @@ func EvalStrings(p *Program, pkgPath, name string) ([]string, error) {
 		}
 	}()
 	return out, rerr
+}
+
+// ReplayInEngine runs one unit on recorded nondet values (a single concrete path
+// through the engine) and reports the failure it ends in, if any.
+func ReplayInEngine(p *Program, u *Unit, vals []ReplayVal) (*Failure, string, error) {
+	fn, err := FindEntry(p, u.PkgPath, u.Entry)
+	if err != nil {
+		return nil, "", err
+	}
+	m, err := NewMachine(p, "z3", 20000)
+	if err != nil {
+		return nil, "", err
+	}
+	defer m.Close()
+	m.Params = u.Params
+	m.MapOrderDefault = u.MapOrder
+	m.Forced = vals
+	if m.Forced == nil {
+		m.Forced = []ReplayVal{}
+	}
+	m.SetPrefix(nil)
+	res := m.RunPath(fn, false)
+	return res.Failure, res.End + " " + res.Detail, nil
 }
